@@ -772,6 +772,16 @@ impl CompactThetaSketch {
         let seed_hash = cursor
             .read_u16_le()
             .map_err(insufficient_data("seed_hash"))?;
+        if !(1..=63).contains(&entry_bits) {
+            return Err(Error::deserial(format!(
+                "corrupted: entry bits must be in [1, 63], got {entry_bits}",
+            )));
+        }
+        if num_entries_bytes > 4 {
+            return Err(Error::deserial(format!(
+                "corrupted: the number of entries takes at most 4 bytes, got {num_entries_bytes}",
+            )));
+        }
         let empty = (flags & serialization::FLAGS_IS_EMPTY) != 0;
         if !empty {
             let expected_seed_hash = compute_seed_hash(expected_seed);
